@@ -21,6 +21,9 @@ XNP_FRESH = {
     "get_array_device", "is_cuda_available", "tensordot", "linear_transpose", "jvp_derivs", "vjp_derivs", "grad", "jit", "vmap",
 }
 # backend functions whose result may share storage with their first argument
+# library functions that return their argument itself when it already has the requested layout / dtype
+EXTERNAL_MAY_ALIAS = {"asarray", "asanyarray", "asfortranarray", "ascontiguousarray", "atleast_1d", "atleast_2d", "atleast_3d", "ravel", "reshape", "squeeze", "transpose",
+                      "as_tensor", "from_numpy", "view_as_real", "view_as_complex"}
 XNP_VIEW = {"reshape", "moveaxis", "permute", "expand", "Parameter", "move_to", "cast", "conj", "stop_gradients"}
 METHOD_FRESH = {"copy", "clone", "astype", "sum", "mean", "max", "min", "prod", "std", "var", "norm", "item", "tolist", "cpu", "numpy", "detach", "any", "all",
                 "argsort", "nonzero", "tocsr", "keys", "values", "items", "get", "format", "join", "split", "find", "isa", "flatten", "dot", "round", "to_bytes",
@@ -87,6 +90,17 @@ class Own:
         for ci in idx.classes.values():
             for name, m in ci.methods.items():
                 self.methods_by_name.setdefault(name, []).append(m)
+
+    def backend_functions(self, name):
+        """the def of backend primitive `name` in every cola/backends/*_fns.py that defines it with a def (aliases of library
+        functions have no body to analyse); update_array is handled as a primitive write"""
+        if name in ("update_array", ):
+            return []
+        cache = self.__dict__.setdefault("_backend_fn_cache", {})
+        if name not in cache:
+            cache[name] = [f for f in self.idx.funcs.values() if f.parent is None and f.cls is None and f.short == name
+                           and f.module.name.startswith("cola.backends.") and f.module.name.endswith("_fns") and id(f.node) not in self.excluded]
+        return cache[name]
 
     def _matmul_may_alias(self):
         """does some _matmat return its operand (or a view of it)?  Then `A @ x` may alias x."""
@@ -337,6 +351,14 @@ class _State:
                 return self.loop_call(c, x)
             if x == "while_loop_winfo":
                 return frozenset({("tuple", (frozenset({("winfo", id(c))}), FRESH))})
+            for bf in self.own.backend_functions(x):
+                summ = self.own.analyse(bf)
+                if summ is None:
+                    continue
+                for p in summ.param_writes:
+                    if p in bf.params and bf.params.index(p) < len(c.args):
+                        tgt = c.args[bf.params.index(p)]
+                        self.write(c, f"call xnp.{x}(writes {p} in {bf.module.name.rsplit('.', 1)[-1]})", tgt, self.origin(tgt))
             if x in XNP_VIEW:
                 return flat(arg_orig[id(c.args[0])]) if c.args else FRESH
             if x in XNP_FRESH:
@@ -347,6 +369,12 @@ class _State:
             if k.arg == "out" and not (isinstance(k.value, ast.Name) and k.value.id == "out"):
                 # forwarding one's own explicit `out` buffer parameter is the documented contract of out=
                 self.write(c, "out=", k.value, self.origin(k.value))
+        # scipy-style overwrite_a / overwrite_b / overwrite_x = True: the routine may work in place in that argument
+        for k in c.keywords:
+            if k.arg and k.arg.startswith("overwrite_") and isinstance(k.value, ast.Constant) and k.value.value is True:
+                pos = {"a": 0, "x": 0, "ab": 0, "b": 1, "c": 1}.get(k.arg[len("overwrite_"):])
+                if pos is not None and pos < len(c.args):
+                    self.write(c, f"{k.arg}=True", c.args[pos], self.origin(c.args[pos]))
         if isinstance(f, ast.Name):
             cal = self.lookup(f.id) if f.id in self.env else None
             if cal is not None and any(o[0] == "winfo" for o in flat(cal)):
@@ -388,6 +416,8 @@ class _State:
                 return flat(recv_o) | (FRESH if f.attr in ("to_dense", "to") else frozenset())
             r = self.idx.resolve_expr(self.fi.module, f, self.fi)
             if r is not None and r.kind == "external":
+                if r.val.rsplit(".", 1)[-1] in EXTERNAL_MAY_ALIAS and c.args:
+                    return flat(arg_orig[id(c.args[0])]) | FRESH  # np.asarray-style: the argument itself when no conversion is needed
                 return FRESH  # numpy / scipy / torch library calls allocate their results
             return frozenset({("unknown", f".{f.attr}()")})
         r = self.idx.resolve_expr(self.fi.module, f, self.fi)
